@@ -50,6 +50,9 @@ def run(tier, rep):
         kind = "scripted" if fm != "none" else rnd.choice(["scripted", "bytesio", "buffered"])
         tr.add(data, kind=kind, validate=1, parsed=True, quit=rnd.choice([0, 1, 2]), faults=gen_streams.faults(rnd, 80, fm), rnd=rnd,
                use_iter=bool(i % 2), nframes=sum(1 for it in items if it[0] == "frame"), nother=sum(1 for it in items if it[0] != "frame"))
+    data, frames = stream_corpus.crc_target_stream(bundle, rnd, pool)
+    for q in (0, 1, 2):
+        tr.add(data, kind="scripted", validate=1, parsed=True, quit=q, faults=None, rnd=rnd, nframes=len(frames), nother=1)
     for fn in stream_corpus.log_files():
         data = open(fn, "rb").read()
         if quick:
